@@ -77,8 +77,8 @@ theorem C11_agree (e : Env) (s : Stream) (info : Option Info)
     ((testModule e s info).1 = 0 ∨ (testModule e s info).1 = eFormat) ∧
     ((loadModule e s).recognized = true →
       (loadModule e s).rc = 0 ∨ (loadModule e s).rc = eLoad ∨ (loadModule e s).rc = eSystem) := by
-  have hw := walks_agree e e.loaders hp s s e.bufGarbage
-    (info.map fun i => { name := set0 i.name, type := set0 i.type }) (-1) rfl
+  have hw := walks_agree e e.loaders hp s s (if Gen.testBufInit = 1 then set0 e.bufGarbage else e.bufGarbage)
+    (resetInfo info) (-1) rfl
   have hiff : (testModule e s info).1 = 0 ↔ (loadWalk e.loaders s (-1)).2.1.isSome = true := hw.1
   have hor : (testModule e s info).1 = 0 ∨ (testModule e s info).1 = eFormat := hw.2
   have hd := C11_codes_distinct
@@ -194,10 +194,13 @@ theorem openSource_err (src : Source) (rc : Int) (ho : openSource src = .error r
     · simp at ho
     · simp at ho; exact Or.inl ho.symm
 
+/-- `info` as the wrappers pass it on: emptied first if the source does so (generated fact) -/
+def wrapInfo (info : Option Info) : Option Info := if Gen.wrappersResetInfo then resetInfo info else info
+
 theorem xmpTest_open_error (e : Env) (decr : Stream → Decr) (src : Source) (info : Option Info) (w : World)
     (rc : Int) (ho : openSource src = .error rc) :
-    xmpTest e decr src info w = { rc := rc, info := info, world := w } := by
-  unfold xmpTest; rw [ho]
+    xmpTest e decr src info w = { rc := rc, info := wrapInfo info, world := w } := by
+  unfold xmpTest; rw [ho]; rfl
 
 theorem xmpLoad_open_error (e : Env) (decr : Stream → Decr) (src : Source) (w : World)
     (rc : Int) (ho : openSource src = .error rc) :
@@ -219,7 +222,7 @@ def loadAfter (e : Env) (w : World) (h : Handle) : Option (World × Handle × St
 theorem xmpTest_ok (e : Env) (decr : Stream → Decr) (src : Source) (info : Option Info) (w : World)
     (h : Handle) (s : Stream) (ho : openSource src = .ok (h, s)) :
     xmpTest e decr src info w =
-      testAfter e info w h (if testDepacks src then applyDecr w h s (decr s) else some (w, h, s)) := by
+      testAfter e (wrapInfo info) w h (if testDepacks src then applyDecr w h s (decr s) else some (w, h, s)) := by
   unfold xmpTest; rw [ho]
   simp only
   split <;> rename_i heq <;> rw [heq] <;> rfl
@@ -293,7 +296,7 @@ theorem C11_agree_wrappers (e : Env) (decr : Stream → Decr) (src : Source) (in
       refine ⟨⟨fun h => absurd h hd.2.2.2.2.2.1, fun ⟨r, h, _⟩ => by simp [loadAfter] at h⟩, Iff.rfl,
         fun _ _ => ⟨rfl, rfl⟩⟩
     · rw [e1, e2]
-      obtain ⟨a1, a2, a3, _⟩ := C11_agree e s1 info hp hn hprep
+      obtain ⟨a1, a2, a3, _⟩ := C11_agree e s1 (wrapInfo info) hp hn hprep
       refine ⟨⟨fun h => ⟨_, rfl, a1.mp h⟩, fun ⟨r, h, hr⟩ => ?_⟩, a2, fun n0 nf => ?_⟩
       · have : loadModule e s1 = r := by simpa [loadAfter] using h
         rw [← this] at hr
@@ -333,7 +336,7 @@ theorem C11_strings_success_partial (e : Env) (s : Stream) (i : Info)
     (h : (testModule e s (some i)).1 = 0) :
     ∃ i', (testModule e s (some i)).2.1 = some i' ∧ hasNul i'.name = true ∧ hasNul i'.type = true ∧
       i'.name.length = nameSize ∧ i'.type.length = nameSize := by
-  unfold testModule at h ⊢
+  unfold testModule resetInfo at h ⊢
   have hn0 : (set0 i.name).length = nameSize := by rw [set0_length]; exact hw.1
   have ht0 : (set0 i.type).length = nameSize := by rw [set0_length]; exact hw.2
   have hpos : 0 < nameSize := by decide
@@ -367,7 +370,7 @@ theorem C11_strings_success (e : Env) (s : Stream) (i : Info)
     (h : (testModule e s (some i)).1 = 0) :
     ∃ i', (testModule e s (some i)).2.1 = some i' ∧ hasNul i'.name = true ∧ hasNul i'.type = true ∧
       i'.name.length = nameSize ∧ i'.type.length = nameSize := by
-  unfold testModule at h ⊢
+  unfold testModule resetInfo at h ⊢
   have hn0 : (set0 i.name).length = nameSize := by rw [set0_length]; exact hw.1
   have ht0 : (set0 i.type).length = nameSize := by rw [set0_length]; exact hw.2
   rcases testWalk_ok_info e _ _ _ _ h with ⟨l, hl, _, hname, _⟩ | ⟨l, _, b, _, hr⟩
@@ -436,30 +439,62 @@ handed back untouched: with a caller-filled `info` the strings are then NOT empt
 theorem C11_strings_wrapper_counterexample :
     let e : Env := { loaders := [], pw := fun _ => none, bufGarbage := [], pwGarbage := [] }
     let r := xmpTest e (fun _ => .fail) (.path (some (false, true, 9, [1, 2, 3]))) (some f15Info) {}
-    r.rc = eDepack ∧ r.info = some f15Info ∧ cstr f15Info.name ≠ [] := by
+    Gen.wrappersResetInfo = true ∨ (r.rc = eDepack ∧ r.info = some f15Info ∧ cstr f15Info.name ≠ []) := by
   decide
 
-/-- What does hold for the wrappers: if the call got as far as `test_module`
-(any return value other than the open/argument/depack errors), `C11_strings_failure` applies. -/
+/-- What holds for the wrappers as they are: if the call got as far as `test_module`
+(return value −FORMAT), `C11_strings_failure` applies. -/
 theorem C11_strings_wrappers_partial (e : Env) (decr : Stream → Decr) (src : Source) (i : Info) (w : World)
     (h : (xmpTest e decr src (some i) w).rc = eFormat) :
     ∃ i', (xmpTest e decr src (some i) w).info = some i' ∧ cstr i'.name = [] ∧ cstr i'.type = [] := by
   have hd := C11_codes_distinct
-  unfold xmpTest at h ⊢
+  have hwi : ∃ j, wrapInfo (some i) = some j := by
+    unfold wrapInfo resetInfo; split <;> exact ⟨_, rfl⟩
+  obtain ⟨j, hj⟩ := hwi
   cases ho : openSource src with
   | error rc =>
-    simp only [ho] at h
-    rcases openSource_err src rc ho with h' | h' <;> rw [h'] at h
-    · exact absurd h.symm hd.2.2.1
-    · exact absurd h.symm hd.2.2.2.2.1
+    rw [xmpTest_open_error e decr src (some i) w rc ho] at h
+    have h' : rc = eFormat := h
+    rcases openSource_err src rc ho with h2 | h2 <;> rw [h2] at h'
+    · exact absurd h'.symm hd.2.2.1
+    · exact absurd h'.symm hd.2.2.2.2.1
   | ok hs =>
     obtain ⟨hh, s⟩ := hs
-    simp only [ho] at h ⊢
-    split at h
-    · simp only at h; exact absurd h.symm hd.2.2.2.1
-    · rename_i w1 h1 s1 _
-      simp only at h ⊢
-      exact C11_strings_failure e s1 i (by rw [h]; exact hd.1)
+    rw [xmpTest_ok e decr src (some i) w hh s ho] at h ⊢
+    rw [hj] at h ⊢
+    generalize (if testDepacks src then applyDecr w hh s (decr s) else some (w, hh, s)) = a at h ⊢
+    cases a with
+    | none => exact absurd (show eDepack = eFormat from h).symm hd.2.2.2.1
+    | some v =>
+      obtain ⟨w1, h1, s1⟩ := v
+      have h' : (testModule e s1 (some j)).1 = eFormat := h
+      exact C11_strings_failure e s1 j (by rw [h']; exact hd.1)
+
+/-- **C11_strings** (failure) for the entry points, full strength, once every wrapper empties the
+strings before it can fail (generated fact `Gen.wrappersResetInfo`, see
+proposed_fixes/c11-strings-not-reset.diff): whatever makes the call fail — argument, open, depack
+or format — both strings are empty. -/
+theorem C11_strings_wrappers (hreset : Gen.wrappersResetInfo = true)
+    (e : Env) (decr : Stream → Decr) (src : Source) (i : Info) (w : World)
+    (h : (xmpTest e decr src (some i) w).rc ≠ 0) :
+    ∃ i', (xmpTest e decr src (some i) w).info = some i' ∧ cstr i'.name = [] ∧ cstr i'.type = [] := by
+  have hj : wrapInfo (some i) = some { name := set0 i.name, type := set0 i.type } := by
+    unfold wrapInfo resetInfo; rw [hreset]; rfl
+  cases ho : openSource src with
+  | error rc =>
+    rw [xmpTest_open_error e decr src (some i) w rc ho, hj]
+    exact ⟨_, rfl, cstr_set0 _, cstr_set0 _⟩
+  | ok hs =>
+    obtain ⟨hh, s⟩ := hs
+    rw [xmpTest_ok e decr src (some i) w hh s ho] at h ⊢
+    rw [hj] at h ⊢
+    generalize (if testDepacks src then applyDecr w hh s (decr s) else some (w, hh, s)) = a at h ⊢
+    cases a with
+    | none => exact ⟨_, rfl, cstr_set0 _, cstr_set0 _⟩
+    | some v =>
+      obtain ⟨w1, h1, s1⟩ := v
+      have h' : (testModule e s1 (some { name := set0 i.name, type := set0 i.type })).1 ≠ 0 := h
+      exact C11_strings_failure e s1 _ h'
 
 /-! ## C11_title -/
 
